@@ -139,6 +139,17 @@ class Minimiser:
         self.name, self.gradtol, self.clause = name, gradtol, clause
 
     def __call__(self, ob, tier, seed):
+        try:
+            return self.prove(ob, tier, seed)
+        except (OutsideSubset, TypeError, AttributeError, KeyError, ValueError, IndexError, z3.Z3Exception) as e:
+            wit = dict(minimiser=self.name, gradtol=self.gradtol)
+            ok, info = self.replay(wit)
+            if ok:
+                return Result(REFUTED, backend="native-contract-evaluation", witness=wit, replayed=True, replay_info=info,
+                              detail=f"{self.name}: contract violated natively (symbolic run left the subset: {type(e).__name__}: {e})")
+            return Result(UNDECIDED, backend="engine-Z", detail=f"outside subset: {type(e).__name__}: {e}")
+
+    def prove(self, ob, tier, seed):
         fname, first, header, kw = MINIMISERS[self.name]
         w = World()
         m = w.module("eminus.minimizer")
@@ -156,8 +167,13 @@ class Minimiser:
 
         try:
             res = explore(w, run, assumptions=base, ext=ext, loop_specs=specs, max_paths=4000)
-        except OutsideSubset as e:
-            return Result(UNDECIDED, backend="engine-Z", detail=f"outside subset: {e}")
+        except (OutsideSubset, TypeError, AttributeError, KeyError, ValueError, IndexError, z3.Z3Exception) as e:
+            wit = dict(minimiser=self.name, gradtol=self.gradtol)
+            ok, info = self.replay(wit)
+            if ok:
+                return Result(REFUTED, backend="native-contract-evaluation", witness=wit, replayed=True, replay_info=info,
+                              detail=f"{self.name}: contract violated natively (symbolic run left the subset: {type(e).__name__}: {e})")
+            return Result(UNDECIDED, backend="engine-Z", detail=f"outside subset: {type(e).__name__}: {e}")
         nobl = 0
         for r in res:
             # loop obligations (invariant entry / preservation) and index obligations
@@ -229,7 +245,7 @@ class Minimiser:
         name = wit["minimiser"]
         findings = []
         caps = sorted({int(wit.get("Nit", 3)), 1, 2, 3, 6, 40})
-        for etol, gradtol in ((1e-3, None), (1e-9, 1e-2 if wit.get("gradtol") else None)):
+        for etol, gradtol in ((1.0, None), (1e-1, None), (1e-3, None), (1e-9, 1e-2 if wit.get("gradtol") else None)):
             for Nit in caps:
                 at = Atoms("He", [[0.0, 0.0, 0.0]], ecut=5, a=8)
                 scf = SCF(at, etol=etol, gradtol=gradtol, opt={name: Nit}, verbose="critical")
@@ -251,7 +267,7 @@ class Minimiser:
                         findings.append(dict(kind="flag", Nit=Nit, etol=etol, gradtol=gradtol, last_dE=float(abs(Elist[-1] - Elist[-2])) if len(Elist) > 1 else None))
                     Y = orth(scf.atoms, scf.W)
                     n = get_n_total(scf.atoms, Y)
-                    if np.abs(n - scf.n).max() > 1e-10:
+                    if np.abs(n - scf.n).max() > 1e-13 * max(1.0, float(np.abs(n).max())):
                         findings.append(dict(kind="coherence", Nit=Nit, etol=etol, max_density_mismatch=float(np.abs(n - scf.n).max())))
         if name == "auto" and not findings:
             # force the steepest-descent fall-back of `auto` (taken whenever the pccg step raises the energy) with a cost
